@@ -136,7 +136,7 @@ func DateToString(val *dtpb.Date) string {
 func TimeToString(val *dtpb.Time) string {
 	duration := TimeToDuration(val)
 
-	hours := (duration / time.Hour) % (time.Hour * 24)
+	hours := (duration / time.Hour) % 24
 	duration %= time.Hour
 	minutes := duration / time.Minute
 	duration %= time.Minute
